@@ -75,8 +75,8 @@ Definition nsf_step_fail (c : ns_cfg) (s : ns_st) (e : ns_ev) : ns_st * list ns_
     | Some (n, q) =>
       match nsf_dec_drain c (ns_set_sq s q) with
       | (s1, o, used) =>
-        (ns_mkst (ns_open s1) (ns_est s1) (ns_act s1) (ns_dq s1) (ns_sq s1) (mid :: ns_lg s1), o,
-         negb used)
+        (ns_mkst (ns_open s1) (ns_est s1) (ns_act s1) (ns_dq s1) (ns_sq s1)
+                 (if ns_client c then mid :: ns_lg s1 else ns_lg s1), o, negb used)
       end
     end
   | NsRst mid =>
